@@ -125,6 +125,14 @@ impl Gen {
             95 => vec![v(b"SET"), self.any_key(), self.pick(ELEMS)],
             96 => vec![v(b"DEL"), self.any_key()],
             97 => match self.r.below(3) { 0 => vec![v(b"EXPIRE"), self.any_key(), v(b"100000")], 1 => vec![v(b"PERSIST"), self.any_key()], _ => vec![v(b"TYPE"), self.any_key()] },
+            98 => { // drain a collection completely (the key must vanish)
+                match self.r.below(4) {
+                    0 => { let mut c = vec![v(b"SREM"), self.key(SKEYS)]; c.extend(ELEMS.iter().map(|e| e.to_vec())); c }
+                    1 => { let mut c = vec![v(b"HDEL"), self.key(HKEYS)]; c.extend(FIELDS.iter().map(|e| e.to_vec())); c }
+                    2 => vec![v(b"LTRIM"), self.key(LKEYS), v(b"5"), v(b"1")],
+                    _ => vec![v(b"SPOP"), self.key(SKEYS), v(b"100")],
+                }
+            }
             _ => { // arity / case
                 let k = self.any_key();
                 match self.r.below(12) {
